@@ -202,7 +202,7 @@ def spec_kty(t):
 
 def sql_cases(rng, tier):
     cases = []
-    n = 24 if tier == "quick" else 400
+    n = 60 if tier == "quick" else 800
     for i in range(n):
         ncols = 2 + rng.below(3)
         cols = [("c%d" % j, rng.choice(SQL_KEY_TYPES)) for j in range(ncols)]
@@ -210,9 +210,33 @@ def sql_cases(rng, tier):
         batch = rng.choice([1, 2, 3, 7, 16, 64, 2048])
         nrows = rng.choice([0, 1, 2, batch, batch + 1, 3 * batch + 1, 50, 130, 300]) if batch < 100 else rng.choice([0, 1, 5, 60, 300])
         nrows = min(nrows, 400)
-        rows = [[gen.value(rng, t) for _, t in cols[:-1]] + ["I%d" % r] for r in range(nrows)]
-        parts = rng.choice([1, 2, 3, 8])
-        stmts = ["set partitions to %d" % parts, gen.create_table("t", cols)] + gen.insert_rows("t", cols, rows)
+        # half of the cases: a "tie" family - few distinct values per column so that earlier keys tie, and text
+        # values that share a prefix longer than the 12-byte key prefix (with duplicates), so that the order is
+        # decided by the heap comparison in the block sort and in the merge of several runs
+        tie = rng.chance(50)
+        if tie and nrows < 12:
+            nrows = rng.choice([12, 20, 40])
+
+        def cell(t):
+            if not tie:
+                return gen.value(rng, t)
+            if rng.chance(8):
+                return "N"
+            k = gen.tinfo(t)[2]
+            if k == "str":
+                return "S" + rng.choice(["prefix_shared_" + x for x in ("A", "B", "C", "D", "", "AA", "B", "C")] + ["a", "b"])
+            if k == "int":
+                return "I%d" % rng.choice([1, 2, 2, 3])
+            if k == "bool":
+                return "B%d" % rng.below(2)
+            return gen.value(rng, t)
+        if tie and not any(t == "text" for _, t in cols[:-1]):
+            cols[0] = (cols[0][0], "text")
+        rows = [[cell(t) for _, t in cols[:-1]] + ["I%d" % r] for r in range(nrows)]
+        parts = rng.choice([1, 2, 3, 4, 8])
+        # several INSERT statements = several stored chunks = several sort runs to merge
+        stmts = ["set partitions to %d" % parts, gen.create_table("t", cols)] + \
+            gen.insert_rows("t", cols, rows, chunk=rng.choice([3, 5, 200]) if tie else 200)
         stmts.append("set batch_size to %d" % batch)
         queries = []
         for q in range(5):
